@@ -217,8 +217,28 @@ func checkExtract(c ExtractCase) string {
 	if got != want {
 		return fmt.Sprintf("GetOnlyExplainErr = %q, want %q", got, want)
 	}
+	// the strings returned earlier still read as they did (the last few are looked at after every call, each one once
+	// more when its slot in the ring is taken - hundreds of calls later)
+	for back := 1; back <= 4; back++ {
+		if e := extractRing[(extractAt+len(extractRing)-back)%len(extractRing)]; e.got != e.want {
+			return fmt.Sprintf("a string returned by GetOnlyExplainErr %d call(s) ago changed afterwards: was %q, now reads %q", back, e.want, e.got)
+		}
+	}
+	if e := extractRing[extractAt]; e.got != e.want {
+		return fmt.Sprintf("a string returned by GetOnlyExplainErr %d calls ago changed afterwards: was %q, now reads %q", len(extractRing), e.want, e.got)
+	}
+	extractRing[extractAt] = extractKept{got: got, want: strings.Clone(want)}
+	extractAt = (extractAt + 1) % len(extractRing)
 	return ""
 }
+
+type extractKept struct{ got, want string }
+
+// extractRing: results of GetOnlyExplainErr as they were handed out, next to an independent copy of what they read then.
+var (
+	extractRing [509]extractKept
+	extractAt   int
+)
 
 // genMixedError builds, through the library itself, an error whose clauses mix
 // Chinese-labelled, English-labelled and unlabelled clauses in generated order.
